@@ -83,6 +83,9 @@ def mtl_faults(ctx: Ctx, M):
         bad = rng.choice(pool)
         for pos in range(len(shared) + 1):
             yield bad_kind + " in shared_params", pos, {**base, "shared": shared[:pos] + [bad] + shared[pos:]}
+            # the same with the OTHER collection left to its default (discovered from the graph)
+            yield bad_kind + " in shared_params (tasks_params defaulted)", pos, \
+                {**base, "shared": shared[:pos] + [bad] + shared[pos:], "tasks": None, "m_tasks": tasks}
         for t in range(T):
             tp = [list(x) for x in tasks]
             pos = rng.randint(0, len(tp[t]))
@@ -90,6 +93,8 @@ def mtl_faults(ctx: Ctx, M):
             if bad in shared:
                 continue
             yield bad_kind + f" in tasks_params", t, {**base, "tasks": tp}
+            yield bad_kind + f" in tasks_params (shared_params defaulted)", t, \
+                {**base, "tasks": tp, "shared": None, "m_shared": shared}
 
 
 def run_fault(ctx: Ctx, api, P, kind, pos, call, reps):
@@ -105,8 +110,10 @@ def run_fault(ctx: Ctx, api, P, kind, pos, call, reps):
             retain = True
             rerr, rg, _ = real_mtl(P, torch.float64, call["losses"], call["features"], call["tasks"],
                                    call["shared"], call["agg"], call["chunk"], retain, pre, report)
-            merr, mg, _ = model_mtl(ctx.driver, P, call["losses"], call["features"], call["tasks"],
-                                    call["shared"], call["agg"], call["chunk"], retain, pre, report)
+            merr, mg, _ = model_mtl(ctx.driver, P, call["losses"], call["features"],
+                                    call["tasks"] if call["tasks"] is not None else call["m_tasks"],
+                                    call["shared"] if call["shared"] is not None else call["m_shared"],
+                                    call["agg"], call["chunk"], retain, pre, report)
         ctx.case((api, kind, pos, tuple(P.describe()), sx([str(v) for v in call.values()]), rep), nontrivial=True,
                  sample={"api": api, "fault": kind, "position": pos, "program": P.describe(),
                          "call": {k: str(v) for k, v in call.items()}, "raised": rerr})
